@@ -308,6 +308,9 @@ func c17Sequence(r *ev.Run) {
 		seqs = append(seqs, s)
 	}
 	for si, seq := range seqs {
+		if r.Violations() >= 5 {
+			return // enough witnesses; every further failure costs a reply timeout
+		}
 		if si%50 == 0 {
 			r.Checkpoint(map[string]interface{}{"phase": "sequence", "requests": seq})
 		}
@@ -338,6 +341,9 @@ func c17Sequence(r *ev.Run) {
 	}
 	for rep := 0; rep < reps; rep++ {
 		for _, d := range drops {
+			if r.Violations() >= 5 {
+				return
+			}
 			c, err := dial()
 			if err != nil {
 				r.Violation("C17:later-child-cannot-connect", "a child could not connect after an earlier child disappeared: "+err.Error(), map[string]interface{}{"drop": d})
@@ -381,6 +387,9 @@ func c17Sequence(r *ev.Run) {
 	// (3) hostile frames interleaved with valid ones do not change the meaning of later valid frames
 	hostile := [][]byte{{mtDrainReq}, {mtDrainReq, 0}, {mtTerminateReq, 0, 50, 'x'}, {mtAdminReq, 0xff, 0xff}, {mtTerminateReq, 0x0f, 0xfe}}
 	for rep := 0; rep < reps*4; rep++ {
+		if r.Violations() >= 5 {
+			return
+		}
 		c, err := dial()
 		if err != nil {
 			r.Violation("C17:later-child-cannot-connect", "cannot connect: "+err.Error(), nil)
